@@ -1,5 +1,169 @@
-//! C20 — not built yet.
-#![allow(unused)]
+//! C20 — covariance kernels (RBF, rational quadratic), scalar and matrix form.
+use crate::libm;
 use crate::util::*;
-pub fn gen(_tier: &str, _seed: u64, _outdir: &str) { eprintln!("C20: gen not implemented"); std::process::exit(3); }
-pub fn oracle(_tier: &str, _seed: u64) -> (u64, Vec<Finding>) { eprintln!("C20: oracle not implemented"); std::process::exit(3); }
+use compute::linalg::{Matrix, Vector};
+use compute::predict::{Kernel, RBFKernel, RQKernel};
+
+fn logu(r: &mut Rng, lo: f64, hi: f64) -> f64 { (r.uniform(lo.ln(), hi.ln())).exp() }
+fn rec<R>(f: impl FnOnce() -> R) -> (libm::Table, Result<R, String>) { libm::start(); let r = catch(f); (libm::stop(), r) }
+fn mat_out(m: &Matrix) -> Vec<f64> { let mut v = vec![m.nrows as f64, m.ncols as f64]; v.extend_from_slice(&m.data); v }
+fn points(r: &mut Rng, n: usize) -> Vec<f64> {
+    let k = r.below(4);
+    (0..n).map(|_| match k { 0 => r.small_int(5), 1 => r.uniform(-1e3, 1e3), 2 => r.uniform(-3.0, 3.0), _ => r.normal() }).collect()
+}
+
+fn rbf_m(k: &RBFKernel, form: usize, xs: &[f64], ys: &[f64]) -> Matrix {
+    let (xv, yv) = (Vector::new(xs.to_vec()), Vector::new(ys.to_vec()));
+    match form {
+        0 => k.forward(xv, yv),
+        1 => k.forward(&xv, &yv),
+        2 => k.forward(Matrix::new(xs.to_vec(), 1, xs.len() as i32), Matrix::new(ys.to_vec(), ys.len() as i32, 1)),
+        _ => k.forward(&Matrix::new(xs.to_vec(), xs.len() as i32, 1), &Matrix::new(ys.to_vec(), 1, ys.len() as i32)),
+    }
+}
+fn rq_m(k: &RQKernel, form: usize, xs: &[f64], ys: &[f64]) -> Matrix {
+    let (xv, yv) = (Vector::new(xs.to_vec()), Vector::new(ys.to_vec()));
+    match form {
+        0 => k.forward(xv, yv),
+        1 => k.forward(&xv, &yv),
+        2 => k.forward(Matrix::new(xs.to_vec(), 1, xs.len() as i32), Matrix::new(ys.to_vec(), ys.len() as i32, 1)),
+        _ => k.forward(&Matrix::new(xs.to_vec(), xs.len() as i32, 1), &Matrix::new(ys.to_vec(), 1, ys.len() as i32)),
+    }
+}
+
+pub fn gen(tier: &str, seed: u64, outdir: &str) {
+    let thorough = tier == "thorough";
+    let mut r = Rng::new(seed ^ 0xC20);
+    let mut cs = Cases::new("C20");
+    let k = if thorough { 8 } else { 1 };
+    for i in 0..400 * k {
+        let (var, ls, al) = (logu(&mut r, 1e-2, 1e2), logu(&mut r, 1e-2, 1e2), logu(&mut r, 1e-2, 1e2));
+        let x = if i % 5 == 0 { r.small_int(20) } else { r.uniform(-1e3, 1e3) };
+        let y = match i % 4 { 0 => x, 1 => x + r.uniform(-1.0, 1.0) * ls, 2 => x + r.uniform(-30.0, 30.0) * ls, _ => r.uniform(-1e3, 1e3) };
+        let (t, e) = rec(|| { let kk = RBFKernel::new(var, ls); if i % 2 == 0 { kk.forward(x, y) } else { kk.forward(&x, &y) } });
+        cs.push(app("CRbf", vec![libm_table(&t), Tm::F(var), Tm::F(ls), Tm::F(x), Tm::F(y), outcome_list(&e.map(|v| vec![v]))]), "rbf/scalar", x != y);
+        let (t, e) = rec(|| { let kk = RQKernel::new(var, al, ls); if i % 2 == 0 { kk.forward(x, y) } else { kk.forward(&x, &y) } });
+        cs.push(app("CRq", vec![libm_table(&t), Tm::F(var), Tm::F(al), Tm::F(ls), Tm::F(x), Tm::F(y), outcome_list(&e.map(|v| vec![v]))]), "rq/scalar", x != y);
+    }
+    let maxn = if thorough { 60 } else { 14 };
+    for i in 0..60 * k {
+        let (var, ls, al) = (logu(&mut r, 1e-2, 1e2), logu(&mut r, 1e-2, 1e2), logu(&mut r, 1e-2, 1e2));
+        let (n, m) = (1 + r.below(maxn) as usize, 1 + r.below(maxn) as usize);
+        let xs = points(&mut r, n);
+        let ys = if i % 3 == 0 { xs.clone() } else { points(&mut r, m) };
+        let form = (i % 4) as usize;
+        let (t, e) = rec(|| mat_out(&rbf_m(&RBFKernel::new(var, ls), form, &xs, &ys)));
+        cs.push(app("CRbfM", vec![libm_table(&t), Tm::Nat(form as u64), Tm::F(var), Tm::F(ls), fl(&xs), fl(&ys), outcome_list(&e)]), &format!("rbf/matrix/form{}", form), xs.len() >= 2 || ys.len() >= 2);
+        let (t, e) = rec(|| mat_out(&rq_m(&RQKernel::new(var, al, ls), form, &xs, &ys)));
+        cs.push(app("CRqM", vec![libm_table(&t), Tm::Nat(form as u64), Tm::F(var), Tm::F(al), Tm::F(ls), fl(&xs), fl(&ys), outcome_list(&e)]), &format!("rq/matrix/form{}", form), xs.len() >= 2 || ys.len() >= 2);
+    }
+    // constructors: valid and invalid parameters
+    for _ in 0..60 {
+        let p: Vec<f64> = (0..3).map(|_| *r.pick(&[1.0, 0.5, 0.0, -0.0, -1.0, 1e-300, f64::INFINITY, -2.5, 3.0])).collect();
+        let e = catch(|| { RBFKernel::new(p[0], p[1]); vec![] });
+        cs.push(app("CRbfNew", vec![Tm::F(p[0]), Tm::F(p[1]), outcome_list(&e)]), "rbf/new", e.is_err());
+        let e = catch(|| { RQKernel::new(p[0], p[1], p[2]); vec![] });
+        cs.push(app("CRqNew", vec![Tm::F(p[0]), Tm::F(p[1]), Tm::F(p[2]), outcome_list(&e)]), "rq/new", e.is_err());
+    }
+    cs.write(outdir, 150, "kernel parameters log-uniform in (1e-2,1e2); scalar pairs in +-1e3 (equal, within a length scale, far apart, unrelated), owned and borrowed; matrix form on point sets of 1..14 (quick) / 1..60 (thorough) points passed as Vector or Matrix (row or column shaped), owned or borrowed, equal and different sets; constructors with valid and invalid parameters; every case carries the libm calls (exp, pow); non-trivial = distinct arguments (scalar), at least 2 points (matrix), rejected parameters (constructors); distinct by hash");
+}
+
+fn jacobi_min_eig(a: &mut Vec<Vec<f64>>) -> f64 {
+    let n = a.len();
+    for _sweep in 0..60 {
+        let mut off = 0.0; for i in 0..n { for j in 0..n { if i != j { off += a[i][j] * a[i][j]; } } }
+        let mut dg = 0.0; for i in 0..n { dg += a[i][i] * a[i][i]; }
+        if off <= 1e-30 * dg.max(1e-300) { break; }
+        for p in 0..n { for q in p + 1..n {
+            if a[p][q] == 0.0 { continue; }
+            let theta = (a[q][q] - a[p][p]) / (2.0 * a[p][q]);
+            let t = theta.signum() / (theta.abs() + (theta * theta + 1.0).sqrt());
+            let t = if theta == 0.0 { 1.0 } else { t };
+            let c = 1.0 / (t * t + 1.0).sqrt(); let s = t * c;
+            for k in 0..n { let (akp, akq) = (a[k][p], a[k][q]); a[k][p] = c * akp - s * akq; a[k][q] = s * akp + c * akq; }
+            for k in 0..n { let (apk, aqk) = (a[p][k], a[q][k]); a[p][k] = c * apk - s * aqk; a[q][k] = s * apk + c * aqk; }
+        }}
+    }
+    (0..n).map(|i| a[i][i]).fold(f64::INFINITY, f64::min)
+}
+
+pub fn oracle(tier: &str, seed: u64) -> (u64, Vec<Finding>) {
+    let thorough = tier == "thorough";
+    let mut r = Rng::new(seed ^ 0x0C20);
+    let mut out: Vec<Finding> = vec![]; let mut tried = 0u64;
+    let mut add = |out: &mut Vec<Finding>, class: &str, what: String, input: String| { if !out.iter().any(|f| f.class == class) { out.push(Finding { class: class.into(), what, input }); } };
+    let iters = if thorough { 40000 } else { 4000 };
+    for _ in 0..iters {
+        let (var, ls, al) = (logu(&mut r, 1e-2, 1e2), logu(&mut r, 1e-2, 1e2), logu(&mut r, 1e-2, 1e2));
+        let x = r.uniform(-1e3, 1e3);
+        let d1 = r.uniform(0.0, 8.0) * ls; let d2 = d1 + r.uniform(0.0, 8.0) * ls;
+        let ks: [(&str, Box<dyn Fn(f64, f64) -> f64>); 2] = [("rbf", Box::new(|a, b| RBFKernel::new(var, ls).forward(a, b))), ("rq", Box::new(|a, b| RQKernel::new(var, al, ls).forward(a, b)))];
+        for (name, k) in ks.iter() {
+            tried += 1;
+            let inp = format!("kernel={} var={:e} alpha={:e} length_scale={:e} x={:e} d1={:e} d2={:e}", name, var, al, ls, x, d1, d2);
+            let (k0, ka, kb) = (k(x, x), k(x, x + d1), k(x, x + d2));
+            let (kas, kbs) = (k(x + d1, x), k(x - d1, x));
+            let ulp = 8.0 * f64::EPSILON;
+            if !(k0 == var) { add(&mut out, &format!("{}:diag-not-variance", name), format!("k(x,x) = {:e}, variance {:e}", k0, var), inp.clone()); }
+            if !(ka > 0.0 || (ka == 0.0 && d1 > 30.0 * ls)) { add(&mut out, &format!("{}:not-positive", name), format!("k = {:e} at distance {:e}", ka, d1), inp.clone()); }
+            if !(ka <= var * (1.0 + ulp)) { add(&mut out, &format!("{}:exceeds-variance", name), format!("k(x,x+d) = {:e} > variance {:e} at distance d = {:e}", ka, var, d1), inp.clone()); }
+            if !(kb <= ka * (1.0 + ulp)) { add(&mut out, &format!("{}:increasing-in-distance", name), format!("k at distance {:e} is {:e} but at the larger distance {:e} it is {:e}", d1, ka, d2, kb), inp.clone()); }
+            let rel = |a: f64, b: f64| (a - b).abs() <= 1e-9 * a.abs().max(b.abs()) + 1e-300;
+            if !rel(ka, kas) || !rel(ka, kbs) { add(&mut out, &format!("{}:asymmetric", name), format!("k(x,x+d) = {:e}, k(x+d,x) = {:e}, k(x-d,x) = {:e}", ka, kas, kbs), inp.clone()); }
+        }
+    }
+    // matrix form: shape, entry = scalar form, Gram symmetric PSD
+    let sets = if thorough { 1500 } else { 200 };
+    for it in 0..sets {
+        let (var, ls, al) = (logu(&mut r, 1e-2, 1e2), logu(&mut r, 1e-2, 1e2), logu(&mut r, 1e-2, 1e2));
+        let (n, m) = (1 + r.below(if thorough { 60 } else { 20 }) as usize, 1 + r.below(if thorough { 60 } else { 20 }) as usize);
+        let scale = if it % 2 == 0 { ls } else { 1.0 };
+        let xs: Vec<f64> = (0..n).map(|_| r.uniform(-4.0, 4.0) * scale).collect();
+        let ys: Vec<f64> = (0..m).map(|_| r.uniform(-4.0, 4.0) * scale).collect();
+        let form = (it % 4) as usize;
+        for name in ["rbf", "rq"] {
+            tried += 1;
+            let inp = format!("kernel={} form={} var={:e} alpha={:e} length_scale={:e} xs={} ys={}", name, form, var, al, ls, json_floats(&xs), json_floats(&ys));
+            let sc = |a: f64, b: f64| if name == "rbf" { RBFKernel::new(var, ls).forward(a, b) } else { RQKernel::new(var, al, ls).forward(a, b) };
+            let got = catch(|| if name == "rbf" { rbf_m(&RBFKernel::new(var, ls), form, &xs, &ys) } else { rq_m(&RQKernel::new(var, al, ls), form, &xs, &ys) });
+            match got {
+                Err(e) => add(&mut out, &format!("{}:matrix-form-panics", name), format!("matrix form panicked: {}", e), inp.clone()),
+                Ok(g) => {
+                    if g.nrows != n || g.ncols != m { add(&mut out, &format!("{}:matrix-shape", name), format!("matrix form is {}x{}, expected {}x{}", g.nrows, g.ncols, n, m), inp.clone()); continue; }
+                    for i in 0..n { for j in 0..m {
+                        let (a, b) = (g[[i, j]], sc(xs[i], ys[j]));
+                        // cancellation in x^2 + y^2 - 2xy: absolute error eps*(|x|+|y|)^2 in the squared distance
+                        let u = 4.0 * f64::EPSILON * (xs[i].abs() + ys[j].abs()).powi(2) / (2.0 * ls * ls) * if name == "rbf" { 1.0 } else { 1.0 };
+                        let tol = b.abs() * (u.exp() - 1.0 + 64.0 * f64::EPSILON * (1.0 + al));
+                        if !((a - b).abs() <= tol) { add(&mut out, &format!("{}:matrix-entry-differs-from-scalar", name), format!("entry ({},{}) = {:e}, scalar form {:e}", i, j, a, b), inp.clone()); }
+                    }}
+                }
+            }
+            // Gram matrix on xs: symmetric, PSD (Cholesky-free: LDL^T in f64 with a floor of -c n eps var)
+            let g = catch(|| if name == "rbf" { rbf_m(&RBFKernel::new(var, ls), form, &xs, &xs) } else { rq_m(&RQKernel::new(var, al, ls), form, &xs, &xs) });
+            if let Ok(g) = g {
+                let mut a: Vec<Vec<f64>> = (0..n).map(|i| (0..n).map(|j| g[[i, j]]).collect()).collect();
+                let mut sym = true;
+                for i in 0..n { for j in 0..n { if (a[i][j] - a[j][i]).abs() > 1e-9 * var { sym = false; } } }
+                if !sym { add(&mut out, &format!("{}:gram-asymmetric", name), "Gram matrix is not symmetric".into(), inp.clone()); }
+                // quadratic forms with random and adversarial (alternating) coefficient vectors
+                let floor = -1e-9 * var * (n as f64) * (n as f64);
+                for t in 0..6 {
+                    let c: Vec<f64> = (0..n).map(|i| if t == 0 { if i % 2 == 0 { 1.0 } else { -1.0 } } else { r.uniform(-1.0, 1.0) }).collect();
+                    let mut q = 0.0; for i in 0..n { for j in 0..n { q += c[i] * a[i][j] * c[j]; } }
+                    if !(q >= floor) { add(&mut out, &format!("{}:gram-not-psd", name), format!("c^T K c = {:e} < 0 for a coefficient vector c", q), inp.clone()); break; }
+                }
+                // smallest eigenvalue by cyclic Jacobi (backward stable: error ~ n*eps*||K||); floor -1e-10*n^2*var
+                let lam = jacobi_min_eig(&mut a);
+                if !(lam >= -1e-10 * var * (n * n) as f64) { add(&mut out, &format!("{}:gram-not-psd", name), format!("smallest eigenvalue of the Gram matrix is {:e} (variance {:e}, {} points)", lam, var, n), inp.clone()); }
+            }
+        }
+    }
+    // invalid parameters must be rejected
+    for p in [(0.0, 1.0, 1.0), (-1.0, 1.0, 1.0), (1.0, 0.0, 1.0), (1.0, -2.0, 1.0), (1.0, 1.0, 0.0), (1.0, 1.0, -1.0)] {
+        tried += 1;
+        if catch(|| RQKernel::new(p.0, p.1, p.2)).is_ok() { add(&mut out, "rq:invalid-parameters-accepted", format!("RQKernel::new{:?} did not panic", p), format!("{:?}", p)); }
+        if (p.0 <= 0.0 || p.2 <= 0.0) && catch(|| RBFKernel::new(p.0, p.2)).is_ok() { add(&mut out, "rbf:invalid-parameters-accepted", format!("RBFKernel::new({},{}) did not panic", p.0, p.2), format!("{:?}", p)); }
+    }
+    (tried, out)
+}
